@@ -65,7 +65,7 @@ def _job_worker(job):
     try:
         b = G_BUILDS[job['build']]
         roots = [job['fn_ir']] + job['uses_ir']
-        text, info = ll2c.translate(b.mod, roots=roots, prefix='', poison_flags=job['poison_flags'])
+        text, info = ll2c.translate(b.mod, roots=roots, prefix='', poison_flags=job['poison_flags'], uf_float=job.get('uf_float', ()))
         job['text'] = job['text'].replace('@@GEN@@', text)
         # line numbers shift by the generated text
         shift = text.count('\n')
@@ -206,7 +206,7 @@ class Prop:
             job = {'id': jid, 'fn': c.fn, 'fn_ir': fn_ir, 'uses_ir': uses_ir, 'build': b.tag, 'text': text, 'lines': lines,
                    'workdir': wd, 'replace': c.replace, 'backends': list(c.backends), 'unwind': c.unwind,
                    'timeout': c.timeout if tier == 'quick' else max(c.timeout, 900), 'in_names': [n for t, n in sig['ins']],
-                   'cbmc_flags': list(c.flags), 'poison_flags': c.poison_flags}
+                   'cbmc_flags': list(c.flags), 'poison_flags': c.poison_flags, 'uf_float': list(getattr(c, 'uf_float', ()))}
             if c.kind == 'U':
                 job['cbmc_flags'] = job['cbmc_flags'] + ['--pointer-check', '--bounds-check']
             jobs.append(job)
